@@ -645,7 +645,11 @@ pub fn evaluate_ast(
             match op {
                 PostfixOp::Factorial => {
                     let n = val.as_number()?;
-                    if n >= 0.0 && n == (n as u64) as f64 {
+                    if n > 170.0 && n == n.trunc() {
+                        // 171! already exceeds the largest finite number; multiplying out
+                        // billions of factors would only take forever to say the same
+                        Ok(Number(f64::INFINITY))
+                    } else if n >= 0.0 && n == (n as u64) as f64 {
                         Ok(Number(
                             (1..(n as u64) + 1).map(|x| x as f64).product::<f64>(),
                         ))
